@@ -421,7 +421,13 @@ def run_diff(ctx, spec):
       if kind == 5:
         ds = [base + delta, base]      # negative difference, other order
       extra = [rng.below(n - 1) + 1 for _ in range(rng.choice([0, 1, 4]))]
-      alld = ds + extra
+      # copies of a key of the pair (two certificates, one key): a copy is
+      # as close to the partner as the original
+      dups = []
+      if 0 < delta < md and rep % 3 == 0:
+        dups = [ds[rng.below(2)] for _ in range(rng.choice([1, 2]))]
+        ctx.count('close_pairs_with_duplicates')
+      alld = ds + extra + dups
       keys = [gen.ec_key_from_priv(name, d) for d in alld]
       # a healthy key on another curve in the same batch
       other = 'CURVE_SECP256K1' if name != 'CURVE_SECP256K1' else \
@@ -435,6 +441,15 @@ def run_diff(ctx, spec):
         ctx.violation('smalldiff-check-raised-%s' % type(e).__name__, repr(e),
                       {'curve': name, 'ds': ds, 'md': md})
         continue
+      for j in range(len(dups)):
+        kd = keys[len(ds) + len(extra) + j]
+        ent = gen.entries(kd.test_info).get('CheckECKeySmallDifference')
+        ctx.count('evaluations')
+        if not (ent and ent[0]):
+          ctx.violation('small-difference-missed/duplicate',
+                        '%s: a second copy of a key that is %d < max_diff %d '
+                        'away from another key of the batch is not flagged' % (
+                            name, delta, md), {'curve': name, 'md': md})
       for i in (0, 1):
         ctx.count('evaluations')
         ctx.distinct(name, md, ds[i], kind)
@@ -512,7 +527,8 @@ def finalize(agg, tier):
             'history_sweeps',
             'structured_keys_found', 'close_pairs', 'identical_keys',
             'form:shift', 'form:repeat', 'large_weakkey_batches',
-            'diff_shape:1-vs-1', 'diff_shape:1-vs-2', 'diff_shape:2-vs-1'):
+            'diff_shape:1-vs-1', 'diff_shape:1-vs-2', 'diff_shape:2-vs-1',
+            'close_pairs_with_duplicates'):
     if not c.get(k):
       inc.append('reach counter %s is zero' % k)
   return [], inc
